@@ -186,6 +186,7 @@ func (c *columnString) Apply(chunk commit.Chunk, r *commit.Reader) {
 			data[offset] = strings.Clone(r.SwapString(c.Merge(data[offset], r.String())))
 		case commit.Delete:
 			fill.Remove(uint32(offset))
+			data[offset] = ""
 		}
 	}
 }
